@@ -3,6 +3,9 @@ package main
 import (
 	"fmt"
 
+	"0chain.net/chaincore/transaction"
+	"0chain.net/core/encryption"
+	"0chain.net/smartcontract/storagesc"
 	"github.com/0chain/common/core/currency"
 	"verif/lib/chainsim"
 	"verif/lib/world"
@@ -17,7 +20,7 @@ const (
 
 // storageActors adds the key pairs of the storage providers of the kill/shutdown scenario.
 func storageActors(w *world.World) {
-	for _, n := range []string{"b0", "b1", "v0"} {
+	for _, n := range []string{"b0", "b1", "b2", "b3", "v0"} {
 		if _, ok := w.Actors[n]; !ok {
 			a := world.DetKey(n)
 			w.Actors[n] = a
@@ -67,4 +70,99 @@ func sCollect(w *world.World, who, provider string) chainsim.Action {
 
 func sCall(w *world.World, who, fn, provider string) chainsim.Action {
 	return call(w, who, "storagesc", fn, map[string]any{"provider_id": w.Actors[provider].ID}, 0, 0, "->"+provider)
+}
+
+// ---------------------------------------------------------------------------------------------
+// a blobber that holds written data (saved_data > 0): allocation + write marker
+
+// addBlobberPriced registers a blobber with the given write price (0 = its allocations create no
+// offers, so its delegates may unstake completely while it still stores data).
+func addBlobberPriced(w *world.World, b, delegate string, writePrice uint64) chainsim.Action {
+	in := map[string]any{
+		"url":                 fmt.Sprintf("http://%s.verif:5051", b),
+		"terms":               map[string]any{"read_price": 1000000000, "write_price": writePrice},
+		"capacity":            21474836480,
+		"stake_pool_settings": map[string]any{"delegate_wallet": w.Actors[delegate].ID, "num_delegates": 2, "service_charge": 0.1},
+	}
+	return call(w, b, "storagesc", "add_blobber", in, 0, 0, fmt.Sprintf(":price=%d", writePrice))
+}
+
+var allocIDs = map[string]string{} // tag -> allocation id (= hash of the creating transaction)
+
+// newAllocation creates a 2+1 allocation of `owner` on three blobbers in a root script.
+func newAllocation(w *world.World, tag, owner string, blobbers []string, size int64, lock currency.Coin) chainsim.Action {
+	o := w.Actors[owner]
+	var ids []string
+	for _, b := range blobbers {
+		ids = append(ids, w.Actors[b].ID)
+	}
+	in := map[string]any{
+		"data_shards": 2, "parity_shards": 1, "size": size, "owner_id": o.ID, "owner_public_key": o.PublicKey,
+		"blobbers": ids, "blobber_auth_tickets": make([]string, len(ids)),
+		"read_price_range":  map[string]any{"min": 0, "max": 70000000000},
+		"write_price_range": map[string]any{"min": 0, "max": 70000000000},
+	}
+	return chainsim.Action{Name: fmt.Sprintf("storagesc.new_allocation_request(%s,%s,%v)", tag, owner, blobbers), Build: func(x *chainsim.Ctx) *world.TxnSpec {
+		spec := world.TxnSpec{From: o, To: storageSC, Type: transaction.TxnTypeSmartContract, Value: lock, Nonce: x.Nonce(o) + 1,
+			Data: world.SC("new_allocation_request", in), Time: x.Now}
+		allocIDs[tag] = w.Txn(spec).Hash
+		return &spec
+	}}
+}
+
+// commitWrite: the blobber redeems a write marker of `size` bytes signed by the allocation owner.
+func commitWrite(w *world.World, tag, owner, blobber string, size int64) chainsim.Action {
+	return chainsim.Action{Name: fmt.Sprintf("storagesc.commit_connection(%s,%s,%+d)", tag, blobber, size), Build: func(x *chainsim.Ctx) *world.TxnSpec {
+		b, o := w.Actors[blobber], w.Actors[owner]
+		id := allocIDs[tag]
+		root := encryption.Hash(fmt.Sprintf("root:%s:%s:%d:%d", tag, blobber, size, x.Now))
+		hd := storagesc.VerifWriteMarkerV1HashData(root, "", "", id, b.ID, o.ID, size, x.Now)
+		sig, err := o.Scheme.Sign(encryption.Hash(hd))
+		if err != nil {
+			panic(err)
+		}
+		in := map[string]any{"allocation_root": root, "prev_allocation_root": "",
+			"write_marker": map[string]any{"allocation_root": root, "prev_allocation_root": "", "file_meta_root": "", "allocation_id": id,
+				"size": size, "blobber_id": b.ID, "timestamp": x.Now, "client_id": o.ID, "signature": sig}}
+		return &world.TxnSpec{From: b, To: storageSC, Type: transaction.TxnTypeSmartContract, Nonce: x.Nonce(b) + 1, Data: world.SC("commit_connection", in), Time: x.Now}
+	}}
+}
+
+// resetOffers: the contract owner sets a blobber's total offers to zero (reset_blobber_stats);
+// afterwards its delegates may unstake completely although it still serves an allocation.
+func resetOffers(w *world.World, blobber string) chainsim.Action {
+	return chainsim.Action{Name: "storagesc.reset_blobber_stats(owner)->" + blobber, Build: func(x *chainsim.Ctx) *world.TxnSpec {
+		ls := x.N.Leaves
+		if ls == nil {
+			ls = world.Leaves(x.N.N.State)
+		}
+		p := decodeLedger(ls, nil).Provs[w.Actors[blobber].ID]
+		if p == nil {
+			return nil
+		}
+		o := w.Actors["owner"]
+		in := map[string]any{"blobber_id": p.ID, "prev_total_offers": p.Offers, "new_total_offers": 0}
+		return &world.TxnSpec{From: o, To: storageSC, Type: transaction.TxnTypeSmartContract, Nonce: x.Nonce(o) + 1, Data: world.SC("reset_blobber_stats", in)}
+	}}
+}
+
+func readPoolLock(w *world.World, who string, v uint64) chainsim.Action {
+	return call(w, who, "storagesc", "read_pool_lock", map[string]any{}, currency.Coin(v), 0, fmt.Sprintf(":%d", v))
+}
+
+// readRedeem: the blobber redeems a read marker of the client with an absolute counter; the read
+// price is paid from the client's read pool into the blobber's stake pool rewards.
+func readRedeem(w *world.World, tag, blobber, client string, counter int64) chainsim.Action {
+	return chainsim.Action{Name: fmt.Sprintf("storagesc.read_redeem(%s,%s,%s,ctr=%d)", tag, blobber, client, counter), Build: func(x *chainsim.Ctx) *world.TxnSpec {
+		b, c := w.Actors[blobber], w.Actors[client]
+		rm := &storagesc.ReadMarker{ClientID: c.ID, ClientPublicKey: c.PublicKey, BlobberID: b.ID, AllocationID: allocIDs[tag], OwnerID: c.ID,
+			Timestamp: x.Now, ReadCounter: counter}
+		sig, err := c.Scheme.Sign(encryption.Hash(rm.GetHashData()))
+		if err != nil {
+			panic(err)
+		}
+		rm.Signature = sig
+		return &world.TxnSpec{From: b, To: storageSC, Type: transaction.TxnTypeSmartContract, Nonce: x.Nonce(b) + 1,
+			Data: world.SC("read_redeem", &storagesc.ReadConnection{ReadMarker: rm}), Time: x.Now}
+	}}
 }
